@@ -433,7 +433,9 @@ XVals == <<
 XIntIdx == 1..17            \* usable as untyped integer literals (18..21 exceed 512 bits)
 
 \* literal families: i n (small decimal n), p k (2^k), pm1 k (2^k - 1), pp1 k (2^k + 1),
-\* f 1|2|3 (1.0, 0.5, 2.5e3), r n (rune literal of code n), s 1 ("ab"), b 0|1 (false, true),
+\* f 1|2|3 (1.0, 0.5, 2.5e3), r n (rune literal of code n), rx n / ro n / ru n / rc n (the rune literal
+\* of value n written with a \x escape, an octal escape, a \u escape, as the character itself),
+\* s 1 ("ab"), b 0|1 (false, true),
 \* x n (integer literal XVals[n]), xf n (float literal XVals[n] written with ".0"),
 \* h n (the hexadecimal float literal 0x1p<n>: magnitudes far beyond float64, which an implementation
 \* must carry exactly through constant arithmetic - go/constant switches representation near 2^4096)
@@ -446,6 +448,8 @@ LitValue(o, n) ==
                          [] n = 2 -> FloatC("untyped", One, -1)
                          [] n = 3 -> FloatC("untyped", FromInt(2500), 0))
       [] o = "r"   -> IntC("rune", "untyped", FromInt(n))
+      \* rune literals of every lexical form denote the code point (for \x and octal escapes: the byte value)
+      [] o \in {"rx", "ro", "ru", "rc"} -> IntC("rune", "untyped", FromInt(n))
       [] o = "x"   -> IntC("int", "untyped", XVals[n])
       [] o = "xf"  -> FloatC("untyped", XVals[n], 0)
       [] o = "h"   -> FloatC("untyped", One, n)          \* 2^n written 0x1p<n>, |n| about 5000
@@ -616,7 +620,8 @@ Emitted(st) == st \in {"ok", "reject"}
 PowKs == {7, 8, 15, 16, 31, 32, 63, 64, 100, 200}
 SmallInts == {0, 1, -1, 3, 10, 255}
 IntLits   == {Lit("i", n) : n \in SmallInts} \cup {Lit(o, k) : o \in {"p", "pm1", "pp1"}, k \in PowKs}
-OtherLits == {Lit("f", 1), Lit("f", 2), Lit("f", 3), Lit("r", 97), Lit("s", 1), Lit("b", 1)}
+EscRunes  == {Lit("rx", 255), Lit("rx", 128), Lit("ro", 255), Lit("ro", 127), Lit("ru", 233), Lit("rc", 233), Lit("rc", 26412)}
+OtherLits == {Lit("f", 1), Lit("f", 2), Lit("f", 3), Lit("r", 97), Lit("s", 1), Lit("b", 1), Lit("rx", 255), Lit("ro", 128)}
 AllLits   == IntLits \cup OtherLits
 \* reduced set for the two-level exhaustive tier
 RedLits   == {Lit("i", 1), Lit("i", -1), Lit("i", 3), Lit("pm1", 7), Lit("p", 7), Lit("p", 8), Lit("p", 63),
@@ -632,7 +637,7 @@ CONSTANTS Shapes,      \* E2: which shapes ("tt" typed o typed, "tu" typed o unt
 
 MidLits   == {Lit("i", 0), Lit("i", 1), Lit("i", -1), Lit("i", 3), Lit("i", 255), Lit("pm1", 7), Lit("p", 7), Lit("p", 8),
               Lit("p", 31), Lit("pm1", 32), Lit("pm1", 63), Lit("p", 63), Lit("pm1", 64), Lit("p", 64), Lit("pp1", 200),
-              Lit("f", 2), Lit("f", 3), Lit("r", 97), Lit("s", 1), Lit("b", 1)}
+              Lit("f", 2), Lit("f", 3), Lit("r", 97), Lit("s", 1), Lit("b", 1), Lit("rx", 255)}
 LitSet == IF Lits = "all" THEN AllLits ELSE IF Lits = "mid" THEN MidLits ELSE RedLits
 
 \* (the generating sets take a dummy argument: TLC evaluates every parameterless
@@ -694,6 +699,8 @@ BoundaryToks(k) ==
          <<Lit("pm1", w)>>, <<Lit("p", w)>>, neg(Lit("pm1", w)), neg(Lit("p", w)),   \* 2^w-1, 2^w and their negations
          <<Lit("p", 100)>>,
          <<Lit("f", 1)>>, <<Lit("f", 2)>>, <<Lit("r", 97)>>,
+         <<Lit("rx", 255)>>, <<Lit("rx", 128)>>, <<Lit("ro", 255)>>, <<Lit("ro", 127)>>, <<Lit("ru", 233)>>, <<Lit("rc", 233)>>, <<Lit("rc", 26412)>>,
+         <<Lit("rx", 128), Lit("i", 1), BinT("-")>>, <<Lit("ro", 255), Lit("i", 1), BinT("+")>>,
          <<Lit("pm1", h), Lit("f", 1), BinT("*")>>,                          \* max as an untyped float
          <<Lit("p", h), Lit("f", 1), BinT("*")>> }                           \* max+1 as an untyped float
 FloatBoundaryToks(k) ==
@@ -792,7 +799,11 @@ InitE1     == case \in {ExprCase(t) : t \in E1Trees(Lits)} /\ res = Pending
 MinKinds   == {"int8", "uint8", "int64", "float32"}
 InitE2     == case \in {ExprCase(t) : t \in E2Trees(IF Kds = "all" THEN Kinds ELSE IF Kds = "min" THEN MinKinds ELSE RedKinds)} /\ res = Pending
 InitE3     == case \in {ExprCase(t) : t \in E3Trees(Lits)} /\ res = Pending
-InitUse    == case \in UseCasesAll(Lits) \cup {ExprCase(t) : t \in HugeTrees} /\ res = Pending
+RuneTrees == {<<a>> : a \in EscRunes}
+             \cup {<<a, Lit("i", n), BinT(o)>> : a \in EscRunes, n \in {1, 255}, o \in {"+", "==", "<", "<<", "&"}}
+             \cup {<<a, ConvT(k)>> : a \in EscRunes, k \in {"uint8", "int8", "int32", "string", "float64"}}
+             \cup {<<a, ArrLenT>> : a \in {Lit("rx", 128), Lit("ro", 255)}}
+InitUse    == case \in UseCasesAll(Lits) \cup {ExprCase(t) : t \in HugeTrees \cup RuneTrees} /\ res = Pending
 InitBlocks == case \in BlockCases(Lits) /\ res = Pending
 Decide     == res.st = "?" /\ res' = Verdict(case) /\ UNCHANGED case
 
@@ -810,7 +821,7 @@ SpecBlocks == InitBlocks /\ [][Decide]_vars
 (* kind that most conversions of the tree use, so that typed operands match.   *)
 Pick(seq) == seq[RandomElement(1..Len(seq))]
 RandLit(goal, z) ==
-    CASE goal = "num" -> RandomElement(IntLits \cup {Lit("f", 1), Lit("f", 2), Lit("f", 3), Lit("r", 97)})
+    CASE goal = "num" -> RandomElement(IntLits \cup {Lit("f", 1), Lit("f", 2), Lit("f", 3), Lit("r", 97)} \cup EscRunes)
       [] goal = "str" -> Lit("s", 1)
       [] OTHER        -> Lit("b", 1)
 RandKind(pk, z) == IF RandomElement(1..4) > 1 THEN pk ELSE RandomElement(NumKinds)
